@@ -37,6 +37,8 @@ package model
 //@   at call IDFromPublicKey: after ghost signer := str(result0)
 //@   at call IDFromPublicKey: after ghost prov := str(rec.ProviderID)
 //@   ensures-local result1 != nil ==> envFailed || count("call:IDFromPublicKey") == 0 || idFailed || signer != prov
+// the provider ID compared with the signer is the one in the sealed record (an empty one is not filled in)
+//@   ensures-local result1 == nil ==> prov == signer
 
 //@ func ReadRegisterRequest
 //@   property C18
@@ -53,6 +55,8 @@ package model
 //@   at call IDFromPublicKey: after ghost signer := str(result0)
 //@   at call IDFromPublicKey: after ghost prov := str(rec.PeerID)
 //@   ensures-local result1 != nil ==> envFailed || count("call:IDFromPublicKey") == 0 || idFailed || signer != prov
+// the provider ID compared with the signer is the one in the sealed record (an empty one is not filled in)
+//@   ensures-local result1 == nil ==> prov == signer
 
 // Constructors seal a record whose fields are the arguments.
 //@ func MakeIngestRequest
@@ -84,3 +88,8 @@ package model
 //@   at call Unmarshal: assert arg0 == data && typeis(arg1, "*model.IngestRequest") && payload(arg1) == r && r != nil
 //@   ensures-local r == nil ==> result != nil && count("call:Unmarshal") == 0
 //@   ensures-local r != nil ==> count("call:Unmarshal") == 1
+// ... and nothing but that decoding decides whether the record is accepted (the reader must accept whatever
+// the constructors seal)
+//@   ghost ue := zero("error")
+//@   at call Unmarshal: after ghost ue := result
+//@   ensures-local r != nil ==> result == ue
